@@ -8,11 +8,12 @@ happens iff the LAST task starts within 32 of `stop_`, i.e. iff `(dist - 1) % th
 * `threadInterval_contiguous_gap`, `threadInterval_le_gap`, `tiles_prefix_gap`, `tiles_sum_gap`, **`parCount_total_of_gap`**: the tiling theorem of WP iter2
   for EVERY `stop ≤ 2^64-1` under `32 ≤ (dist - 1) % threadDist` (last task longer than 32) — for `stop < 2^64-1` WP iter2's `parCount_total` needs no such
   hypothesis (there `stop + 1` does not wrap and the empty task `[stop+1, stop]` is harmless).
-* `threadDist_gap`: with `isqrt(2^64-1) = 4294967295` (so `threshold = 858993459`, `balanced = 858993459000`) and `2 ≤ threads ≤ 27709465`,
-  `threads·threshold ≤ dist ≤ 2^64-1`: `32 ≤ (dist-1) % threadDist`.  Reason: `threadDist ≥ ⌈dist/iters⌉ + 1 > threshold`, while a last task of length
-  `≤ 32` forces `threadDist ≤ 31·iters + 31` and `iters ≤ max(2^64/balanced, threads) ≤ 27709465`, `31·27709466 = 858993446 < 858993460`.
-* **`parCount_total_umax`**: `parCount cnt 4294967295 a (2^64-1) t = cnt a (2^64-1)` for every `1 ≤ t ≤ 27709465`.
-* **`parCount_umax_wrap_witness`**: the bound is needed (and nearly sharp): at `start = 18422941821390992413`, `stop = 2^64-1`, `numThreads = 27709468`
+* `threadDist_gap`: with `isqrt(2^64-1) = 4294967295` (so `threshold = 858993459`, `balanced = 858993459000`) and `2 ≤ threads ≤ 27709467`,
+  `threads·threshold ≤ dist ≤ 2^64-1`: `32 ≤ (dist-1) % threadDist`.  Reason: `threadDist = td0 + d`, `td0 = ⌈dist/iters⌉ ≥ threshold`, `d = 30 - td0 % 30 ∈ [1, 30]`;
+  a last task of length `≤ 32` forces `threadDist ≤ (d + 1)·iters + 31`, and `iters ≤ max(2^64/balanced, threads) ≤ 27709467`.  For `d ≤ 29`: `30·27709467 + 31 < threshold`;
+  for `d = 30`: `td0` is a multiple of 30 `≥ 858993459`, so `td0 ≥ 858993480`, `threadDist ≥ 858993510 > 31·27709467 + 31 = 858993508`.  SHARP: 27709468 threads wrap.
+* **`parCount_total_umax`**: `parCount cnt 4294967295 a (2^64-1) t = cnt a (2^64-1)` for every `1 ≤ t ≤ 27709467`.
+* **`parCount_umax_wrap_witness`**: the bound is needed and SHARP: at `start = 18422941821390992413`, `stop = 2^64-1`, `numThreads = 27709468`
   the model's last task is `(0, 2^64-1)`, the one before already ends at `2^64-1`, and the count is `cnt start stop + cnt 0 stop`.
 -/
 import PcProofs.IterPar2
@@ -111,7 +112,7 @@ theorem parCount_total_of_gap (cnt : ℕ → ℕ → ℕ) (h : CntAdd cnt) (isq 
 /-! ### `getThreadDistance` at `stop = 2^64-1`: the last task is longer than 32 for every realistic thread count -/
 
 /-- core of the argument, for an abstract iteration count `N` and lower bound `F` of the quotient -/
-theorem lastTask_gap (dist N F : ℕ) (hN1 : 1 ≤ N) (hN : N ≤ 27709465) (hF : 858993459 ≤ F) (hNF : N * F ≤ dist) (hd1 : 1 ≤ dist) :
+theorem lastTask_gap (dist N F : ℕ) (hN1 : 1 ≤ N) (hN : N ≤ 27709467) (hF : 858993459 ≤ F) (hNF : N * F ≤ dist) (hd1 : 1 ≤ dist) :
     32 ≤ (dist - 1) % (max ((dist - 1) / N + 1) 10000000 + (30 - max ((dist - 1) / N + 1) 10000000 % 30)) := by
   have h1 : dist - 1 < N * ((dist - 1) / N + 1) := Nat.lt_mul_div_succ _ (by omega)
   have h2 : N * ((dist - 1) / N) ≤ dist - 1 := Nat.mul_div_le _ _
@@ -125,17 +126,12 @@ theorem lastTask_gap (dist N F : ℕ) (hN1 : 1 ≤ N) (hN : N ≤ 27709465) (hF 
   rw [hM]
   have hmod := Nat.mod_lt (q0 + 1) (by norm_num : 30 > 0)
   generalize htd : q0 + 1 + (30 - (q0 + 1) % 30) = td
-  have htd1 : q0 + 2 ≤ td := by omega
-  have htd2 : td ≤ q0 + 31 := by omega
   by_contra hc
   have hr : (dist - 1) % td < 32 := by omega
   have hdm := Nat.div_add_mod (dist - 1) td
   generalize (dist - 1) / td = q at hdm
   generalize (dist - 1) % td = r at hdm hr
-  -- N * td ≤ dist - 1 + 31 N
-  have e1 : N * td ≤ N * (q0 + 31) := Nat.mul_le_mul_left N htd2
-  have e2 : N * (q0 + 31) = N * q0 + 31 * N := by ring
-  -- q < N
+  have htd1 : q0 + 2 ≤ td := by omega
   have e3 : N * (q0 + 2) ≤ N * td := Nat.mul_le_mul_left N htd1
   have e4 : N * (q0 + 2) = N * q0 + 2 * N := by ring
   have hqN : q < N := by
@@ -146,10 +142,18 @@ theorem lastTask_gap (dist N F : ℕ) (hN1 : 1 ≤ N) (hN : N ≤ 27709465) (hF 
   have e5 : td * (q + 1) ≤ td * N := Nat.mul_le_mul_left td hqN
   have e6 : td * (q + 1) = td * q + td := by ring
   have e7 : td * N = N * td := Nat.mul_comm _ _
-  omega
+  -- the alignment step is 30 (td0 a multiple of 30) or at most 29
+  by_cases h30 : (q0 + 1) % 30 = 0
+  · have htd2 : td = q0 + 31 := by omega
+    have e1 : N * td = N * q0 + 31 * N := by rw [htd2]; ring
+    omega
+  · have htd2 : td ≤ q0 + 30 := by omega
+    have e1 : N * td ≤ N * (q0 + 30) := Nat.mul_le_mul_left N htd2
+    have e2 : N * (q0 + 30) = N * q0 + 30 * N := by ring
+    omega
 
-/-- the thread distance of the multi-thread path at `stop = 2^64-1` (`isqrt = 4294967295`): last task longer than 32 for `threads ≤ 27709465` -/
-theorem threadDist_gap (dist t : ℕ) (hd : dist ≤ umax) (ht2 : 2 ≤ t) (ht : t ≤ 27709465) (htd : t * 858993459 ≤ dist) :
+/-- the thread distance of the multi-thread path at `stop = 2^64-1` (`isqrt = 4294967295`): last task longer than 32 for `threads ≤ 27709467` -/
+theorem threadDist_gap (dist t : ℕ) (hd : dist ≤ umax) (ht2 : 2 ≤ t) (ht : t ≤ 27709467) (htd : t * 858993459 ≤ dist) :
     32 ≤ (dist - 1) % getThreadDistance 4294967295 dist t := by
   rw [getThreadDistance_eq_raw 4294967295 dist t (by omega) hd]
   unfold threadDistRaw
@@ -165,8 +169,8 @@ theorem threadDist_gap (dist t : ℕ) (hd : dist ≤ umax) (ht2 : 2 ≤ t) (ht :
   have hF1 : 858993459 ≤ F := by omega
   have hF2 : F ≤ dist / t := by omega
   have hFpos : 0 < F := by omega
-  -- dist / F ≤ 27709465
-  have hk : dist / F ≤ 27709465 := by
+  -- dist / F ≤ 27709467
+  have hk : dist / F ≤ 27709467 := by
     rcases Nat.le_total 858993459000 (dist / t) with hle | hle
     · have : F = 858993459000 := by omega
       rw [this]
@@ -186,7 +190,7 @@ theorem threadDist_gap (dist t : ℕ) (hd : dist ≤ umax) (ht2 : 2 ≤ t) (ht :
   have hk0 : dist / F / t * t ≤ dist / F := Nat.div_mul_le_self _ _
   generalize hN : max (dist / F / t * t) t = N
   have hN1 : 1 ≤ N := by omega
-  have hNle : N ≤ 27709465 := by omega
+  have hNle : N ≤ 27709467 := by omega
   have hNF : N * F ≤ dist := by
     rcases Nat.le_total (dist / F / t * t) t with hle | hle
     · have : N = t := by omega
@@ -223,8 +227,8 @@ theorem idealNumThreads_umax (a b t : ℕ) (hab : a ≤ b) (ht1 : 1 ≤ t) (h1 :
       exact ⟨by omega, by omega, hdm⟩
 
 /-- **`ParallelSieve::sieve()` at `stop = 2^64-1`**: the per-task counts add up to the count of `[start, 2^64-1]` for every additive count and every
-    thread count `1 ≤ numThreads ≤ 27709465` (`isqrt(2^64-1) = 4294967295`: `Nat.sqrt umax`, see `sqrt_umax`) -/
-theorem parCount_total_umax (cnt : ℕ → ℕ → ℕ) (h : CntAdd cnt) (a t : ℕ) (ha : a ≤ umax) (ht1 : 1 ≤ t) (ht : t ≤ 27709465) :
+    thread count `1 ≤ numThreads ≤ 27709467` (`isqrt(2^64-1) = 4294967295`: `Nat.sqrt umax`, see `sqrt_umax`) -/
+theorem parCount_total_umax (cnt : ℕ → ℕ → ℕ) (h : CntAdd cnt) (a t : ℕ) (ha : a ≤ umax) (ht1 : 1 ≤ t) (ht : t ≤ 27709467) :
     parCount cnt 4294967295 a umax t = cnt a umax := by
   refine parCount_total_of_gap cnt h 4294967295 a umax t ha (le_refl _) (fun h1 => ?_)
   obtain ⟨h2, h3, h4⟩ := idealNumThreads_umax a umax t ha ht1 h1
@@ -236,7 +240,7 @@ theorem sqrt_umax : Nat.sqrt umax = 4294967295 := by
   rw [Nat.eq_sqrt]; constructor <;> decide
 
 /-- every `stop ≤ 2^64-1` (`isq` arbitrary below the top, `= isqrt` at the top) -/
-theorem parCount_total_all (cnt : ℕ → ℕ → ℕ) (h : CntAdd cnt) (isq a b t : ℕ) (hb : b ≤ umax) (ht1 : 1 ≤ t) (ht : t ≤ 27709465)
+theorem parCount_total_all (cnt : ℕ → ℕ → ℕ) (h : CntAdd cnt) (isq a b t : ℕ) (hb : b ≤ umax) (ht1 : 1 ≤ t) (ht : t ≤ 27709467)
     (hisq : b = umax → isq = 4294967295) : parCount cnt isq a b t = cnt a b := by
   by_cases hab : a ≤ b
   · rcases Nat.lt_or_ge b umax with hlt | hge
